@@ -88,10 +88,14 @@ var whitelist = []fnSpec{
 	// phase 2: loops, *int parameters, maps, an abstract reader (decode.go)
 	{"ttheader", "", "readIntKVInfo"}, {"ttheader", "", "readStrKVInfo"}, {"ttheader", "", "readACLToken"},
 	{"ttheader", "", "readKVInfo"}, {"ttheader", "", "Decode"},
+	// the generic skip template over an abstract SkipN (skipdecoder_tpl.go): recursion, loops
+	{"thrift", "SkipDecoderTpl", "Skip"},
 }
 
 // Coq names that differ from g_<pkg>_<Func> (methods of several types with the same name)
-var coqNameOf = map[fnSpec]string{}
+var coqNameOf = map[fnSpec]string{
+	{"thrift", "SkipDecoderTpl", "Skip"}: "g_thrift_SkipDecoderTpl_Skip",
+}
 
 // library calls that are given a meaning (everything else fails)
 const (
@@ -1771,6 +1775,12 @@ func recvName(fd *ast.FuncDecl) string {
 	for {
 		switch x := t.(type) {
 		case *ast.StarExpr:
+			t = x.X
+			continue
+		case *ast.IndexExpr: // generic receiver T[P]
+			t = x.X
+			continue
+		case *ast.IndexListExpr:
 			t = x.X
 			continue
 		case *ast.Ident:
